@@ -1,5 +1,6 @@
 /- line-protocol driver for C05 (auto-scaled fixed point: quantized_bits / quantized_linear, alpha auto*) -/
 import QKV.Drv.GrpJson
+import QKV.Model.AutoFxArg
 open Lean QKV QKV.Drv QKV.Tn QKV.BT QKV.AF
 
 def qbJson (c : Fl) (es : List QElt) : Json :=
@@ -14,10 +15,21 @@ def qlJson (c : Fl) (es : List LElt) : Json :=
     definitions `C05_history_fresh` / `C05_linear_history_fresh` are about); per step the float32 result,
     the band flag and the public attributes the object carries after the call -/
 
-def axisToJson : AxisSpec → Json
+/-- `scale_axis` at the ARGUMENT level: ints as Python holds them, negative = counted from the end
+    (resolved per call by the model: `qbAxis` / `qlAxis`, Model/AutoFxArg.lean) -/
+def axisArgOfJson (j : Json) : Except String AxisArg :=
+  match j with
+  | .null => pure .none
+  | .arr a => do pure (.many (← a.toList.mapM fun v => v.getInt?))
+  | v => do pure (.one (← v.getInt?))
+def getAxisArg (j : Json) (k : String) : Except String AxisArg :=
+  match j.getObjVal? k with
+  | .ok v => axisArgOfJson v
+  | .error _ => pure .none
+def axisToJson : AxisArg → Json
   | .none => Json.null
-  | .one a => Json.num (a : Int)
-  | .many l => Json.arr (l.map fun (a : Nat) => Json.num (a : Int)).toArray
+  | .one a => Json.num a
+  | .many l => Json.arr (l.map fun (a : Int) => Json.num a).toArray
 def epsToJson : EpsSpec → Json
   | .none => Json.null
   | .one a => Json.num (a : Int)
@@ -26,18 +38,18 @@ def optIntToJson : Option Int → Json
   | none => Json.null
   | some i => Json.num i
 
-def qbAttrsOfJson (cfg : Json) : Except String QBAttrs := do
+def qbAttrsOfJson (cfg : Json) : Except String QBArgAttrs := do
   pure { bits := ← getInt cfg "bits", integer := ← getInt cfg "integer", keepNeg := ← getBool cfg "keep_negative",
-         po2 := ← getBool cfg "po2", sa := ← getAxis cfg "sa", eps := ← getEps cfg "eps",
+         po2 := ← getBool cfg "po2", sa := ← getAxisArg cfg "sa", eps := ← getEps cfg "eps",
          minE := ← getOptInt cfg "min_e", maxE := ← getOptInt cfg "max_e" }
-def qbAttrsToJson (a : QBAttrs) : Json :=
+def qbAttrsToJson (a : QBArgAttrs) : Json :=
   Json.mkObj [("bits", Json.num a.bits), ("integer", Json.num a.integer), ("keep_negative", Json.bool a.keepNeg),
     ("po2", Json.bool a.po2), ("sa", axisToJson a.sa), ("eps", epsToJson a.eps), ("min_e", optIntToJson a.minE),
     ("max_e", optIntToJson a.maxE)]
-def qlAttrsOfJson (cfg : Json) : Except String QLAttrs := do
+def qlAttrsOfJson (cfg : Json) : Except String QLArgAttrs := do
   pure { bits := ← getInt cfg "bits", integer := ← getInt cfg "integer", symmetric := ← getBool cfg "symmetric",
-         keepNeg := ← getBool cfg "keep_negative", po2 := ← getBool cfg "po2", sa := ← getAxis cfg "sa" }
-def qlAttrsToJson (a : QLAttrs) : Json :=
+         keepNeg := ← getBool cfg "keep_negative", po2 := ← getBool cfg "po2", sa := ← getAxisArg cfg "sa" }
+def qlAttrsToJson (a : QLArgAttrs) : Json :=
   Json.mkObj [("bits", Json.num a.bits), ("integer", Json.num a.integer), ("symmetric", Json.bool a.symmetric),
     ("keep_negative", Json.bool a.keepNeg), ("po2", Json.bool a.po2), ("sa", axisToJson a.sa)]
 
@@ -63,17 +75,17 @@ def histQB (j : Json) (eps : Rat) : Except String Json := do
   -- a step with `"export": true` is a `model_save_quantized_weights` event (QBEvent.save): the model that holds the
   -- object is exported while the layer weight is `x`; every other step is a direct call (QBEvent.call)
   let steps ← stepsJ.toList.mapM fun sj => do
-    let st : QBStep := { set := ← optSet qbAttrsOfJson sj, chLast := ← getBool sj "ch_last",
-                         shape := ← getNatList sj "shape", x := ← getRatList sj "x" }
+    let st : QBArgStep := { set := ← optSet qbAttrsOfJson sj, chLast := ← getBool sj "ch_last",
+                            shape := ← getNatList sj "shape", x := ← getRatList sj "x" }
     let ex := match sj.getObjVal? "export" with
       | .ok (.bool true) => true
       | _ => false
-    pure (if ex then QBEvent.save st else QBEvent.call st)
-  let o : QBObj := { attrs := a0, frozen := pts.isSome, scale := pts }
+    pure (if ex then QBArgEvent.save st else QBArgEvent.call st)
+  let o : QBArgObj := { attrs := a0, frozen := pts.isSome, scale := pts }
   let key (l : List QElt) := l.map fun t => (t.z, t.scale)
-  let rb := qbRunEv f32 o steps
-  let ru := qbRunEv fu o steps
-  let rd := qbRunEv fd o steps
+  let rb := qbArgRunEv f32 o steps
+  let ru := qbArgRunEv fu o steps
+  let rd := qbArgRunEv fd o steps
   let expJson (e : Option QBExported) : Json :=
     match e with
     | none => Json.null
@@ -96,16 +108,21 @@ def histQL (j : Json) (eps : Rat) : Except String Json := do
   let stepsJ ← (← j.getObjVal? "steps").getArr?
   let steps ← stepsJ.toList.mapM fun sj => do
     pure ({ set := ← optSet qlAttrsOfJson sj, chLast := ← getBool sj "ch_last", shape := ← getNatList sj "shape",
-            x := ← getRatList sj "x" } : QLStep)
+            x := ← getRatList sj "x" } : QLArgStep)
   -- default_quantization_scale of a string alpha: the scalar data_type_scale
-  let o : QLObj := { attrs := a0, qs := { shape := [], vals := [(a0.cfg true).dts] } }
+  let o : QLArgObj := { attrs := a0, qs := { shape := [], vals := [pow2 (a0.integer - (a0.bits - (if a0.keepNeg then 1 else 0)))] } }
   let key (l : List LElt) := l.map fun t => (t.code, t.qs)
-  let rb := qlRun f32 o steps
-  let ru := qlRun fu o steps
-  let rd := qlRun fd o steps
+  let rb := qlArgRun f32 o steps
+  let ru := qlArgRun fu o steps
+  let rd := qlArgRun fd o steps
   let outs := (rb.zip (ru.zip rd)).map fun (b, u, d) =>
-    Json.mkObj [("F", qlJson f32 b.2), ("band", Json.bool (key u.2 != key b.2 || key d.2 != key b.2)),
-      ("attrs", qlAttrsToJson b.1.attrs), ("stored", storedToJson (some b.1.qs))]
+    match b.2, u.2, d.2 with
+    | .ok eb, .ok eu, .ok ed =>
+      Json.mkObj [("F", qlJson f32 eb), ("band", Json.bool (key eu != key eb || key ed != key eb)),
+        ("attrs", qlAttrsToJson b.1.attrs), ("stored", storedToJson (some b.1.qs))]
+    | .error x, _, _ => Json.mkObj [("err", (errJson x).getObjValD "err"), ("attrs", qlAttrsToJson b.1.attrs)]
+    | _, .error x, _ => Json.mkObj [("err", (errJson x).getObjValD "err"), ("attrs", qlAttrsToJson b.1.attrs)]
+    | _, _, .error x => Json.mkObj [("err", (errJson x).getObjValD "err"), ("attrs", qlAttrsToJson b.1.attrs)]
   pure <| Json.mkObj [("steps", Json.arr outs.toArray)]
 
 def handleHist (j : Json) : Except String Json := do
@@ -125,7 +142,12 @@ def handle1 (j : Json) : Except String Json := do
   let (e, f32, fu, fd) := ctxs eps
   match op with
   | "qbits_auto" =>
-    let g : Grp := { chLast := ← getBool cfg "ch_last", sa := ← getAxis cfg "sa", eps := ← getEps cfg "eps" }
+    -- the axis argument is resolved against the rank of THIS tensor by the model (`qbAxis`)
+    let epsS ← getEps cfg "eps"
+    match qbAxis shape.length (← getAxisArg cfg "sa") epsS with
+    | .error x => pure (errJson x)
+    | .ok saR =>
+    let g : Grp := { chLast := ← getBool cfg "ch_last", sa := saR, eps := epsS }
     let qc : QBCfg := { bits := ← getInt cfg "bits", integer := ← getInt cfg "integer",
                         keepNeg := ← getBool cfg "keep_negative", po2 := ← getBool cfg "po2", grp := g,
                         minE := ← getOptInt cfg "min_e", maxE := ← getOptInt cfg "max_e" }
@@ -142,9 +164,12 @@ def handle1 (j : Json) : Except String Json := do
     | _, _, .error x, _ => pure (errJson x)
     | _, _, _, .error x => pure (errJson x)
   | "qlinear_auto" =>
+    match qlAxis shape.length (← getAxisArg cfg "sa") with
+    | .error x => pure (errJson x)
+    | .ok saR =>
     let qc : QLCfg := { bits := ← getInt cfg "bits", integer := ← getInt cfg "integer",
                         symmetric := ← getBool cfg "symmetric", keepNeg := ← getBool cfg "keep_negative",
-                        po2 := ← getBool cfg "po2", chLast := ← getBool cfg "ch_last", sa := ← getAxis cfg "sa" }
+                        po2 := ← getBool cfg "po2", chLast := ← getBool cfg "ch_last", sa := saR }
     let a := qlAuto e qc shape x
     let b := qlAuto f32 qc shape x
     let u := qlAuto fu qc shape x
